@@ -197,7 +197,11 @@ def check(spec, tag, overwrite, scratch, naming="plain"):
     try:
         with warnings.catch_warnings(), contextlib.redirect_stdout(io.StringIO()):
             warnings.simplefilter("ignore")
-            PyTorchModelWrapper(src).inject_payload(payload, dst, injection="insertion", overwrite=overwrite)
+            if len(tag) % 3 == 0:
+                # the documented parameter order, passed positionally
+                PyTorchModelWrapper(src).inject_payload(payload, dst, "insertion", overwrite)
+            else:
+                PyTorchModelWrapper(src).inject_payload(payload, dst, injection="insertion", overwrite=overwrite)
     except Exception as e:  # noqa: BLE001
         return fail(f"inject_payload raised {type(e).__name__}: {e}")
     after = _listing(scratch.path)
